@@ -89,18 +89,20 @@ func GenerateSet(t *tape.Tape, illFormed bool) *Set {
 		g.all = append(g.all, m)
 	}
 	// submodules of m0 (and maybe of the last module)
-	nsub := t.Draw(3)
+	nsub := t.Draw(4)
 	var subs []*Module
 	for i := 0; i < nsub; i++ {
-		owner := g.mods[0]
-		if t.Rare(4) {
-			owner = g.mods[len(g.mods)-1]
+		oi := 0
+		if t.Draw(5) >= 3 {
+			oi = t.Draw(len(g.mods))
 		}
+		owner := g.mods[oi]
 		sm := &Module{Name: fmt.Sprintf("s%d", i), Prefix: owner.Prefix, Sub: true, BelongsTo: owner.Name, Imports: owner.Imports}
 		sm.Root = S("submodule", sm.Name, S("belongs-to", owner.Name, S("prefix", owner.Prefix)))
-		for _, im := range owner.Imports {
+		// a submodule may import modules of its own (only earlier ones, so that no import cycle arises)
+		for j := 0; j < oi; j++ {
 			if t.Coin() {
-				sm.Root.Add(S("import", im.Name, S("prefix", im.Prefix)))
+				sm.Root.Add(S("import", g.mods[j].Name, S("prefix", g.mods[j].Prefix)))
 			}
 		}
 		owner.Root.Kids = append(owner.Root.Kids[:2:2], append([]*Stmt{S("include", sm.Name)}, owner.Root.Kids[2:]...)...)
@@ -1058,7 +1060,7 @@ func addLinkage(m *Module, st *Stmt) {
 
 func (g *gen) breakSomething() {
 	t := g.t
-	op := t.Draw(16)
+	op := t.Draw(20)
 	mods := g.mods
 	m := mods[t.Draw(len(mods))]
 	switch op {
@@ -1198,6 +1200,111 @@ func (g *gen) breakSomething() {
 			m.Root.Add(S("typedef", tn, S("type", "int8", S("range", "0..10"))), S("leaf", g.name("l"), S("type", tn, S("range", "5..20"))))
 			g.set.Ops = append(g.set.Ops, "bad-range-widening")
 		}
+	case 19: // a definition (or an import) that is only reachable through a chain of includes x1 -> x2 -> x3
+		{
+			owner := m
+			var other *Module
+			for _, x := range mods {
+				if x != owner {
+					other = x
+				}
+			}
+			x1 := &Module{Name: g.name("x"), Prefix: owner.Prefix, Sub: true, BelongsTo: owner.Name}
+			x2 := &Module{Name: g.name("x"), Prefix: owner.Prefix, Sub: true, BelongsTo: owner.Name}
+			x3 := &Module{Name: g.name("x"), Prefix: owner.Prefix, Sub: true, BelongsTo: owner.Name}
+			for _, x := range []*Module{x1, x2, x3} {
+				x.Root = S("submodule", x.Name, S("belongs-to", owner.Name, S("prefix", owner.Prefix)))
+				addLinkage(owner, S("include", x.Name))
+			}
+			addLinkage(x1, S("include", x2.Name))
+			addLinkage(x2, S("include", x3.Name))
+			tn, gn := g.name("tq"), g.name("gq")
+			x3.Root.Add(S("typedef", tn, S("type", "int16")), S("grouping", gn, S("leaf", g.name("l"), S("type", "string"))))
+			switch t.Draw(3) {
+			case 0:
+				x1.Root.Add(S("leaf", g.name("l"), S("type", tn)))
+			case 1:
+				x1.Root.Add(S("container", g.name("c"), S("uses", gn)))
+			case 2:
+				if other != nil && other != owner {
+					// x3 imports another module; x1 uses that prefix without importing it itself
+					imported := false
+					for _, k := range other.Root.Kids {
+						if k.Kw == "import" && k.Arg == owner.Name {
+							imported = true // would close an import cycle through the merged imports
+						}
+					}
+					if !imported {
+						addLinkage(x3, S("import", other.Name, S("prefix", "pq")))
+						other.Root.Add(S("typedef", tn, S("type", "uint8")))
+						x1.Root.Add(S("leaf", g.name("l"), S("type", "pq:"+tn)))
+					}
+				}
+			}
+			g.set.Mods = append(g.set.Mods, x1, x2, x3)
+			g.all = append(g.all, x1, x2, x3)
+			g.set.Ops = append(g.set.Ops, "reference-through-nested-include")
+		}
+	case 16: // the same top-level data node / rpc name in two different modules (different namespaces)
+		if len(mods) >= 2 {
+			a, b := mods[0], mods[len(mods)-1]
+			nn := g.name("same")
+			switch t.Draw(3) {
+			case 0:
+				a.Root.Add(S("container", nn, S("leaf", g.name("l"), S("type", "string"))))
+				b.Root.Add(S("container", nn, S("leaf", g.name("l"), S("type", "int8"))))
+			case 1:
+				a.Root.Add(S("rpc", nn))
+				b.Root.Add(S("rpc", nn))
+			case 2:
+				a.Root.Add(S("leaf", nn, S("type", "string")))
+				b.Root.Add(S("notification", nn))
+			}
+			g.set.Ops = append(g.set.Ops, "same-top-level-name-in-two-modules")
+			return
+		}
+		fallthrough
+	case 17: // the same typedef / grouping name defined in two imported modules, used with both prefixes from a third
+		if len(mods) >= 3 {
+			a, b, c := mods[0], mods[1], mods[len(mods)-1]
+			imports := func(m, x *Module) bool {
+				for _, k := range m.Root.Kids {
+					if k.Kw == "import" && k.Arg == x.Name {
+						return true
+					}
+				}
+				return false
+			}
+			if !imports(c, a) {
+				addLinkage(c, S("import", a.Name, S("prefix", a.Prefix)))
+			}
+			if !imports(c, b) {
+				addLinkage(c, S("import", b.Name, S("prefix", b.Prefix)))
+			}
+			tn, gn := g.name("tsame"), g.name("gsame")
+			a.Root.Add(S("typedef", tn, S("type", "int8")), S("grouping", gn, S("leaf", g.name("l"), S("type", "string"))))
+			b.Root.Add(S("typedef", tn, S("type", "string")), S("grouping", gn, S("leaf", g.name("l"), S("type", "boolean"))))
+			c.Root.Add(S("container", g.name("c"),
+				S("leaf", g.name("l"), S("type", a.Prefix+":"+tn)),
+				S("leaf", g.name("l"), S("type", b.Prefix+":"+tn)),
+				S("container", g.name("c"), S("uses", a.Prefix+":"+gn)),
+				S("container", g.name("c"), S("uses", b.Prefix+":"+gn))))
+			if t.Coin() {
+				// and a local definition of the same name, used unprefixed
+				c.Root.Add(S("typedef", tn, S("type", "boolean")), S("leaf", g.name("l"), S("type", tn)))
+			}
+			g.set.Ops = append(g.set.Ops, "same-definition-name-in-two-imports")
+			return
+		}
+		fallthrough
+	case 18: // two independent errors in two different modules: which one is reported may depend on order, the verdict may not
+		if len(mods) >= 2 {
+			mods[0].Root.Add(S("leaf", g.name("l"), S("type", "nosuchtype")))
+			mods[len(mods)-1].Root.Add(S("container", g.name("c"), S("uses", "nosuchgrouping")))
+			g.set.Ops = append(g.set.Ops, "two-independent-errors")
+			return
+		}
+		fallthrough
 	case 15: // duplicate top-level name across two modules' augments or same module
 		nn := g.name("dup")
 		m.Root.Add(S("leaf", nn, S("type", "string")), S("container", nn))
